@@ -13,8 +13,8 @@ import (
 	"github.com/cloudwego/dynamicgo/conv/p2j"
 	"github.com/cloudwego/dynamicgo/conv/t2j"
 	dhttp "github.com/cloudwego/dynamicgo/http"
-	"github.com/cloudwego/dynamicgo/proto"
 	"github.com/cloudwego/dynamicgo/internal/simrt"
+	"github.com/cloudwego/dynamicgo/proto"
 	"github.com/cloudwego/dynamicgo/thrift"
 	"github.com/cloudwego/dynamicgo/thrift/generic"
 )
